@@ -99,7 +99,7 @@ def nodeRestarts (pods : List Pod) (name : String) : Int :=
 
 def insertByKey (key : Node → Int) (n : Node) : List Node → List Node
   | [] => [n]
-  | m :: rest => if key n < key m then n :: m :: rest else m :: insertByKey key n rest
+  | m :: rest => if key n ≤ key m then n :: m :: rest else m :: insertByKey key n rest
 
 /-- stable sort by restart count (Go's `sort.Slice` is an insertion sort, hence stable, for the
 population sizes the correspondence uses (≤ 12)). -/
@@ -135,7 +135,9 @@ def selectNodes (t : Template) (canary : Canary) (base : Int) (currentNodes : Li
   | none => .err "replicas"
   | some nb =>
   let sorted := sortByRestarts pods listed
-  -- drop already selected nodes that are listed but no longer fit
+  -- drop already selected nodes that are listed but no longer fit; names that are no longer listed
+  -- (node deleted, or no longer matching the canary node selector) are never examined and stay
+  -- (known finding F6a)
   let current := sorted.foldl (fun (cur : List String) n =>
       if cur.contains n.name && !fit t n then cur.erase n.name else cur) currentNodes
   let keys := canary.antiAffinityKeys
